@@ -225,17 +225,43 @@ def _l4(ctx):
     ctx.check(ok, R, fi, calls[0] if calls else fi.node, "the architecture is not flattened from the root for the requested compute", "flattened from the root for each requested compute")
 
 
+def _l5(ctx):
+    R = "C25-L5"
+    ctx.doc(R, "ArchNode.find: a miss in one child never ends the search -- inside the loop over the children the caller's default is not forwarded to a recursive call whose result is returned unconditionally")
+    fi = ctx.func(ST, "ArchNode.find", R)
+    ps = fi.params()
+    ctx.require(len(ps) >= 3, R, f"parameters of find: {ps}")
+    dflt = ps[2]
+    loops = [s for s in fi.stmts() if isinstance(s, ast.For) and norm(s.iter).endswith(".nodes")]
+    ctx.require(len(loops) == 1, R, f"loops over the children: {len(loops)}")
+    rets = [r for r in ast.walk(loops[0]) if isinstance(r, ast.Return) and r.value is not None]
+    ctx.require(len(rets) >= 1, R, "no return inside the child loop")
+    n = 0
+    for r in rets:
+        for c in [x for x in ast.walk(r.value) if isinstance(x, ast.Call) and isinstance(x.func, ast.Attribute) and x.func.attr == "find"]:
+            n += 1
+            fwd = any(isinstance(a, ast.Name) and a.id == dflt for a in c.args[1:]) or any(isinstance(k.value, ast.Name) and k.value.id == dflt for k in c.keywords)
+            ctx.check(not fwd, R, fi, r, f"`{norm(r)}` returns the child's answer even when it is the caller's default: the first nested branch that does not hold the name ends the search, "
+                      "so a Fork whose compute comes after a nested branch is judged not to contain it and is skipped when flattening", "recursive call raises on a miss (caught), so the search goes on")
+    ctx.require(n >= 1, R, "recursive find call in the child loop")
+    tail = [s for s in fi.node.body if isinstance(s, ast.If) and dflt in norm(s.test)]
+    ctx.check(len(tail) >= 1, R, fi, tail[0] if tail else fi.node, "the default is not returned after all children were searched", "default returned only after the whole loop")
+    ctx.floor(R, 2)
+
+
 def check(ctx):
     uni = node_universe(ctx)
     _l1(ctx, uni)
     _l2(ctx)
     _l3(ctx)
     _l4(ctx)
+    _l5(ctx)
     ctx.observe("a Compute placed inside an Array is rejected by today's code with 'Compute node ... not found' (the Array node itself is appended after its children); "
                 "explicit error, not a wrong path -- see findings/witness/obs_c25_compute_inside_array.py")
 
 
 VARIANTS = [
+    {"kind": "F", "name": "find-forwards-default", "rule": "C25-L5", "edits": [(ST, "                try:\n                    return element.find(name)\n                except (AttributeError, ValueError):", "                try:\n                    return element.find(name, default)\n                except (AttributeError, ValueError):")]},
     {"kind": "F", "name": "leaf-before-compute", "rule": "C25-L1", "edits": [
         (ST, """                elif isinstance(node, Compute):
                     if node.name == compute_node:
